@@ -351,6 +351,104 @@ def run(tier, seed, replay):
                 raise
             except Exception as e:
                 v("heom-raises", f"{type(e).__name__}: {e}"[:240], cfg)
+    # ------------------------------------------------------------------ bath-constructor helpers and environment objects
+    # A helper-built bath, the environment object's expansion handed over as (environment, Q), and a bath written out
+    # from the exponents of that expansion describe one correlation function: same reduced dynamics; and the
+    # correlation function an expansion reports is the sum over its exponents.
+    try:
+        from qutip.solver.heom import DrudeLorentzBath, DrudeLorentzPadeBath, UnderDampedBath, LorentzianBath, LorentzianPadeBath
+        from qutip.core.environment import DrudeLorentzEnvironment, UnderDampedEnvironment, LorentzianEnvironment
+        Hs = 0.5 * qutip.sigmaz() + 0.3 * qutip.sigmax()
+        Qs = qutip.sigmaz() + 0.2 * qutip.sigmax()
+        rho_s = qutip.ket2dm((qutip.basis(2, 0) + 0.5j * qutip.basis(2, 1)).unit())
+        tls = np.linspace(0, 2.0, 5)
+
+        def dyn(bath, depth=2, H_=Hs, rho_=rho_s):
+            with warnings.catch_warnings():
+                warnings.simplefilter("ignore")
+                with core.time_limit(600):
+                    return [x.full() for x in HEOMSolver(H_, bath, max_depth=depth, options=OPT).run(rho_, tls).states]
+
+        def written_out(envx, Q):
+            ckr, vkr, cki, vki = [], [], [], []
+            for e in envx.exponents:
+                nm = e.type.name
+                if nm in ("R", "RI"):
+                    ckr.append(e.ck)
+                    vkr.append(e.vk)
+                if nm == "I":
+                    cki.append(e.ck)
+                    vki.append(e.vk)
+                if nm == "RI":
+                    cki.append(e.ck2)
+                    vki.append(e.vk)
+            return BosonicBath(Q, ckr, vkr, cki, vki, combine=False)
+        lam, gam, Tb, w0 = float(rng.choice([0.05, 0.1])), float(rng.choice([0.8, 1.5])), float(rng.choice([0.7, 1.5])), 1.2
+        Nk = int(rng.choice([1, 2, 3]))
+        families = [("drude-matsubara", lambda: DrudeLorentzBath(Qs, lam, gam, Tb, Nk), lambda: DrudeLorentzEnvironment(Tb, lam, gam).approx_by_matsubara(Nk)),
+                    ("drude-pade", lambda: DrudeLorentzPadeBath(Qs, lam, gam, Tb, Nk), lambda: DrudeLorentzEnvironment(Tb, lam, gam).approx_by_pade(Nk)),
+                    ("underdamped", lambda: UnderDampedBath(Qs, lam, gam, w0, Tb, Nk), lambda: UnderDampedEnvironment(Tb, lam, gam, w0).approx_by_matsubara(Nk))]
+        for fam, mk_bath, mk_env in families:
+            try:
+                ref_d = dyn(mk_bath())
+                envx = mk_env()
+                routes = {"(environment, Q)": dyn((envx, Qs)), "written out from the exponents": dyn(written_out(envx, Qs)),
+                          "helper bath with combine=False": None}
+                for nm_, st_ in routes.items():
+                    if st_ is None:
+                        continue
+                    rep.evaluations += 1
+                    rep.count("helper-route=" + fam)
+                    dd = max(np.abs(a - b).max() for a, b in zip(ref_d, st_))
+                    if dd > 1e-7:
+                        v(f"helpers:{fam}", f"{fam} (lam={lam}, gamma={gam}, T={Tb}, Nk={Nk}): the helper-built bath and the same expansion given as {nm_} give system states differing by {dd:.2e}", {"family": fam, "lam": lam, "gamma": gam, "T": Tb, "Nk": Nk})
+                # the expansion's correlation function is the sum over its exponents
+                tt = np.linspace(0, 3, 13)
+                want = np.zeros_like(tt, dtype=complex)
+                for e in envx.exponents:
+                    nm = e.type.name
+                    if nm == "R":
+                        want += e.ck * np.exp(-e.vk * tt)
+                    elif nm == "I":
+                        want += 1j * e.ck * np.exp(-e.vk * tt)
+                    elif nm == "RI":
+                        want += (e.ck + 1j * e.ck2) * np.exp(-e.vk * tt)
+                got = np.array(envx.correlation_function(tt))
+                if np.abs(got - want).max() > 1e-10 * (1 + np.abs(want).max()):
+                    v(f"helpers-cf:{fam}", f"{fam}: the correlation function reported by the expansion differs from the sum over its exponents by {np.abs(got - want).max():.2e}", {"family": fam})
+                # more terms approach the exact correlation function
+                exact_env = DrudeLorentzEnvironment(Tb, lam, gam) if fam.startswith("drude") else UnderDampedEnvironment(Tb, lam, gam, w0)
+                tpos = np.linspace(0.3, 3, 10)
+                errs = []
+                for nk in (1, 4, 16):
+                    ap = exact_env.approx_by_pade(nk) if fam == "drude-pade" else exact_env.approx_by_matsubara(nk)
+                    errs.append(np.abs(np.array(ap.correlation_function(tpos)) - np.array(exact_env.correlation_function(tpos))).max())
+                if not (errs[2] <= errs[0] + 1e-12 and errs[2] < 1e-3 * (1 + lam)):
+                    v(f"helpers-convergence:{fam}", f"{fam}: expansions with 1, 4, 16 terms miss the exact correlation function by {errs}", {"family": fam})
+            except core.CaseTimeout:
+                raise
+            except Exception as e:
+                v(f"helpers-raises:{fam}", f"{fam}: {type(e).__name__}: {e}"[:200])
+        # fermionic helpers: Lorentzian bath against the environment object's expansion, both parities of the state
+        dq = qutip.destroy(2)
+        Hf = 0.4 * dq.dag() * dq
+        for fam, mk_bath, mk_env in (("lorentzian-matsubara", lambda: LorentzianBath(dq, 0.2, 1.5, 0.3, Tb, Nk), lambda: LorentzianEnvironment(Tb, 0.3, 0.2, 1.5).approx_by_matsubara(Nk)),
+                                     ("lorentzian-pade", lambda: LorentzianPadeBath(dq, 0.2, 1.5, 0.3, Tb, Nk), lambda: LorentzianEnvironment(Tb, 0.3, 0.2, 1.5).approx_by_pade(Nk))):
+            try:
+                rf = qutip.ket2dm(qutip.basis(2, 1))
+                a1 = dyn(mk_bath(), depth=2, H_=Hf, rho_=rf)
+                a2 = dyn((mk_env(), dq), depth=2, H_=Hf, rho_=rf)
+                rep.evaluations += 1
+                rep.count("helper-route=" + fam)
+                dd = max(np.abs(a - b).max() for a, b in zip(a1, a2))
+                if dd > 1e-7:
+                    v(f"helpers:{fam}", f"{fam}: the helper-built bath and the environment object's expansion give system states differing by {dd:.2e}", {"family": fam, "T": Tb, "Nk": Nk})
+            except core.CaseTimeout:
+                raise
+            except Exception as e:
+                v(f"helpers-raises:{fam}", f"{fam}: {type(e).__name__}: {e}"[:200])
+    except ImportError as e:
+        rep.notes["helpers_skipped"] = str(e)
     # ------------------------------------------------------------------ pure dephasing: closed form
     for w0, lam in ((1.0, 0.02), (0.5, 0.04)):
         ck, vk = [lam * (1.0 - 0.3j), 0.5 * lam], [1.0, 2.3]
